@@ -17,6 +17,7 @@ package main
 import (
 	"context"
 	"os"
+	"runtime/pprof"
 	"syscall"
 	"encoding/base64"
 	"encoding/json"
@@ -358,10 +359,17 @@ func (w *world) run(r *hx.Run, c caseT) {
 		// the verifier's own time zone: process-global, so these cases run one at a time (main keeps them out of the
 		// parallel part). time.Now() inside the verifier (through the clock seam too) and every time decoded from
 		// Unix seconds then carry this location.
+		// The zone is written INTO the Location time.Local points to (not by re-pointing the variable), so that code
+		// holding that pointer - a time.Time made earlier, the clock seam's copy of time.Local - sees it as well.
 		z := verifierZones[c.VZone]
-		old := time.Local
-		time.Local = time.FixedZone(z.Name, int(z.Off/time.Second))
-		defer func() { time.Local = old }()
+		_ = time.Local.String() // forces the lazy initialisation of the machine's zone, which would overwrite ours
+		saved := *time.Local
+		*time.Local = *time.FixedZone(z.Name, int(z.Off/time.Second))
+		defer func() { *time.Local = saved }()
+		if _, off := time.Now().Zone(); off != int(z.Off/time.Second) {
+			r.Infra("verifier zone %s not in effect (offset %d s)", z.Name, off)
+			return
+		}
 	}
 	caType := []string{"ca", "signingAuthority"}[c.Scheme]
 	otherType := []string{"signingAuthority", "ca"}[c.Scheme]
@@ -757,8 +765,8 @@ func slug(s string) string {
 
 func main() {
 	r := hx.New("C06")
-	r.Rule = "time-line product: scheme x tsa store in policy x verifyTimestamp x (leaf, CA) validity windows x signing time x expiry x countersignature state x TSA revocation answer x format; quick = every case with at most 5 deviations from the default case, thorough = the full product (minus envelopes core-go cannot parse: expiry not after signing time); one real verifier.Verify per case under an all-log level (+ one under strict); non-trivial = every distinct case (each has its own expected pair of results)"
-	r.Assumptions = []string{"the verification instant is the real clock; every generated instant is >= 1 h away from it, so each case has one outcome whenever it runs", "countersignatures are forged by lib/tsa (offline RFC 3161 authority); tokens from public TSAs are outside the bound", "reference clock model: DESIGN.md appendix A.2 (harness/c06 model())"}
+	r.Rule = "time-line product: scheme x tsa store in policy x verifyTimestamp x (leaf, CA) validity windows x signing time x expiry x countersignature state x TSA revocation answer x format; quick = every case with at most 5 deviations from the default case, thorough = the full product (minus envelopes core-go cannot parse: expiry not after signing time); crossed with the secondary dimensions the model must not depend on - order of the trustStores list (tsa store last / first / in the middle, a store of the other signing type around it) x UTC offset the JWS envelope's times are written with x an intermediate certificate with its own window x signing times two hours outside a window edge - up to 4 (thorough 5) deviations in total when one of them deviates; every case with <= 2 deviations again with the verifier's local time zone (time.Local) set to +05:45 and -08:00 (one at a time); clock-advance histories and frozen-clock boundary reads through the clock seam; one real verifier.Verify per case under an all-log level (+ one under strict); non-trivial = every distinct case (each has its own expected pair of results)"
+	r.Assumptions = []string{"the verification instant is the real clock; every generated instant is >= 1 h away from it, so each case has one outcome whenever it runs", "countersignatures are forged by lib/tsa (offline RFC 3161 authority); tokens from public TSAs are outside the bound", "reference clock model: DESIGN.md appendix A.2 (harness/c06 model())", "COSE envelopes carry Unix seconds, so the envelope-zone dimension exists for JWS only; certificate and token times are DER (always UTC)"}
 	now := time.Now().Truncate(time.Second)
 	w := &world{now: now, chains: map[[3]int]*pki.Chain{}}
 	w.spare = pki.NewChain(pki.ChainOpts{Len: 2, Prefix: "c06-unrelated", CAIdx: 7}).Root()
@@ -861,6 +869,8 @@ func main() {
 		}
 	}
 	sort.SliceStable(cases, func(i, j int) bool { return false })
+	pf, _ := os.Create("/tmp/c06.prof")
+	pprof.StartCPUProfile(pf)
 	r.Parallel(len(cases), func(i int) {
 		w.run(r, cases[i])
 		if i%2503 == 0 {
@@ -872,6 +882,8 @@ func main() {
 		syscall.Getrusage(syscall.RUSAGE_SELF, &ru)
 		fmt.Fprintf(os.Stderr, "PHASE %s cpu=%.1fs wall=%s\n", tag, float64(ru.Utime.Sec)+float64(ru.Utime.Usec)/1e6+float64(ru.Stime.Sec), time.Since(now))
 	}
+	pprof.StopCPUProfile()
+	pf.Close()
 	cpu("parallel")
 	// sequential: the verifier's time zone (time.Local) is process-global
 	for _, c := range zoneCases {
